@@ -13,6 +13,7 @@ mod pod;
 mod token;
 mod macros;
 mod res;
+mod c15;
 #[path = "/repo/program-error-derive/src/parser.rs"]
 mod parser;
 #[path = "/repo/program-error-derive/src/macro_impl.rs"]
@@ -89,6 +90,7 @@ fn main() {
         "C06" | "C08" => (res::run_c06_c08(&ctx, &prop), 40),
         "C07" => (res::run_c07(&ctx), 60),
         "C12" => (res::run_c12(&ctx), 40),
+        "C15" => (c15::run(&ctx), 60),
         "C19" => (macros::run_c19(&ctx), 60),
         "C14" => (pod::run_c14(&ctx), 400),
         _ => {
